@@ -142,6 +142,7 @@ type Contract struct {
 	Pos      string
 	Lets     []*SpecMacro
 	Unfolds  []*Clause
+	CallAssumes map[string][]*Clause // assumptions stated at a call site (listed in the evidence)
 	Ghosts   []*SpecMacro // ghost results: name := expression over the function's variables at its returns
 }
 
@@ -402,6 +403,21 @@ func (cs *ContractSet) parseClause(body, pos, pkg string, cur **Contract) error 
 			return err
 		}
 		c.Lets = append(c.Lets, &SpecMacro{Name: strings.TrimSpace(rest[:j]), Body: e})
+	case "callassume":
+		// callassume <callee>: expr   -- an assumption (not proved) in force at calls to <callee>
+		j := strings.Index(rest, ":")
+		if j < 0 {
+			return fmt.Errorf("callassume without ':'")
+		}
+		e, err := parseExpr(strings.TrimSpace(rest[j+1:]), pos)
+		if err != nil {
+			return err
+		}
+		if c.CallAssumes == nil {
+			c.CallAssumes = map[string][]*Clause{}
+		}
+		name := strings.TrimSpace(rest[:j])
+		c.CallAssumes[name] = append(c.CallAssumes[name], &Clause{Kind: "callassume", E: e, Text: strings.TrimSpace(rest[j+1:]), Pos: pos})
 	case "ghost":
 		j := strings.Index(rest, ":=")
 		if j < 0 {
